@@ -1,7 +1,8 @@
 (* C08/Props.v — the property theorems.  Nothing else. *)
 From Coq Require Import List NArith ZArith Bool Lia.
 From Common Require Import Bytes Outcome.
-From C08 Require Import Model ModelCD Proofs Proofs_cd.
+From Gen Require Import C08.
+From C08 Require Import Model ModelCD ModelLL Proofs Proofs_cd Proofs_ll Proofs_ll3 Proofs_ll4.
 Import ListNotations.
 Local Open Scope N_scope.
 
@@ -119,3 +120,59 @@ Theorem classdef_read_total :
   forall (data : list N) (pos : N), M_cd_read data pos <> Panic.
 Proof. exact cd_read_total. Qed.
 Print Assumptions classdef_read_total.
+
+(* ---------------- lookup list layout (gtab.LookupList.encode) ---------------- *)
+(* Abstract subtables: opaque blobs, encodeLen = length.  The model mirrors the
+   code with fixes/C08-lookuplist-guards.diff applied (DESIGN 5.A-14 and two
+   further defects: lists the reader rejects, unknown extension type). *)
+
+(* lookuplist_offsets: whenever encode returns (it may refuse loudly: Panic;
+   OutOfFuel = 4 GiB of data, outside the model), every lookup offset, every
+   subtable offset relative to its lookup table and every extension offset is
+   the true distance between the emitted pieces and fits its field.
+   [find_pos .. L 0] is the byte position of a piece in the emitted string:
+   the last conjunct of each case says that the subtable's bytes are there. *)
+Theorem lookuplist_offsets :
+  forall (ll : list lookup) (extT : N) (L : list chunk) (b pre post : list N),
+    M_ll_layout ll = Ok L -> emit ll extT L L = Ok b ->
+    forall k l, nth_error ll k = Some l ->
+    exists T,
+      find_pos KTable (N.of_nat k) 0 L 0 = Some T /\ T <= 65535 /\
+      forall j blob, nth_error (lk_subs l) j = Some blob ->
+        (find_pos KExt (N.of_nat k) (N.of_nat j) L 0 = None /\
+         exists Sp, find_pos KSub (N.of_nat k) (N.of_nat j) L 0 = Some Sp /\
+                    T <= Sp /\ Sp - T <= 65535 /\
+                    starts (pre ++ b ++ post) (N.of_nat (length pre) + Sp) blob)
+        \/
+        (exists Ep Sp,
+           find_pos KExt (N.of_nat k) (N.of_nat j) L 0 = Some Ep /\
+           find_pos KSub (N.of_nat k) (N.of_nat j) L 0 = Some Sp /\
+           T <= Ep /\ Ep - T <= 65535 /\ Ep <= Sp /\ Sp - Ep < 4294967296 /\
+           starts (pre ++ b ++ post) (N.of_nat (length pre) + Sp) blob).
+Proof. intros ll extT L b pre post HL He k l Hk. exact (ll_offsets ll extT L b pre post HL He k l Hk). Qed.
+Print Assumptions lookuplist_offsets.
+
+(* lookuplist_roundtrip_abstract: decoding the emitted list, wherever it sits
+   in a file, following extension records, returns every lookup in order with
+   its type, flags and mark filtering set, and for every subtable a position
+   at which exactly that subtable's bytes start. *)
+Theorem lookuplist_roundtrip_abstract :
+  forall (ll : list lookup) (extT : N) (b pre post : list N),
+    extT < 65536 -> Forall (lookup_ok extT) ll ->
+    M_ll_encode ll extT = Ok b ->
+    exists obs,
+      M_ll_read (pre ++ b ++ post) (N.of_nat (length pre)) extT = Ok obs /\
+      Forall2 (lookup_matches (pre ++ b ++ post)) ll obs.
+Proof.
+  intros ll extT b pre post Hext Hll. unfold M_ll_encode.
+  destruct (M_ll_layout ll) as [L| | |] eqn:HL; cbn [obind]; try discriminate.
+  intros He. exact (ll_read_back ll extT L b pre post HL He Hext Hll).
+Qed.
+Print Assumptions lookuplist_roundtrip_abstract.
+
+(* the lookup offsets written into the list header are never truncated *)
+Theorem lookuplist_lookup_offsets_fit :
+  forall (ll : list lookup) (L : list chunk) (t q : N),
+    M_ll_layout ll = Ok L -> find_pos KTable t 0 L 0 = Some q -> q <= 65535.
+Proof. intros ll L t q HL. apply (tables_fit ll L t q). apply layout_shape_of. exact HL. Qed.
+Print Assumptions lookuplist_lookup_offsets_fit.
